@@ -576,4 +576,155 @@ theorem markDirty_eff_flags (f : Nat) (s : State) (y : Nat) (hk : (s.get y).kind
   rw [notify_get, State.get_upd_same _ _ hlt]
   simp [ha, hlt]
 
+/-! ## marking at top level reaches the effects (their `chan` flag) -/
+
+def NewClosedE (s s' : State) : Prop :=
+  ∀ x w, (s.get x).kind = .memo → (s.get x).st = .clean → (s'.get x).st ≠ .clean →
+    w ∈ (s.get x).subs → (s.get w).kind = .eff → (s.get w).alive = true → (s'.get w).chan = true
+
+theorem NewClosedE.refl (s : State) : NewClosedE s s := fun _ _ _ h1 h2 => absurd h1 h2
+
+theorem NewClosedE.trans {s s1 s2 : State} (r1 : MarkRel s s1) (n1 : NewClosedE s s1)
+    (f2 : FlagRel s1 s2) (n2 : NewClosedE s1 s2) : NewClosedE s s2 := by
+  intro x w hk hc hnc hw hkw ha
+  by_cases h1 : (s1.get x).st = .clean
+  · exact n2 x w (by rw [r1.kind]; exact hk) h1 hnc (by rw [r1.subs]; exact hw)
+      (by rw [r1.kind]; exact hkw) (by rw [(Node.core_life (r1.core w)).1]; exact ha)
+  · exact f2.c w (n1 x w hk hc h1 hw hkw ha)
+
+theorem foldl_markCE (g : State → Nat → State) (N : Nat) (P : Nat → Prop)
+    (hrel : ∀ s x, MarkRel s (g s x)) (hflag : ∀ s x, FlagRel s (g s x))
+    (hg : ∀ s x, SubsInc s → s.nodes.length = N → P x →
+      NewClosedE s (g s x) ∧ ((s.get x).kind = .eff → (s.get x).alive = true → ((g s x).get x).chan = true)) :
+    ∀ (l : List Nat) (s : State), SubsInc s → s.nodes.length = N → (∀ w ∈ l, P w) →
+      NewClosedE s (l.foldl g s) ∧
+      ∀ w ∈ l, (s.get w).kind = .eff → (s.get w).alive = true → ((l.foldl g s).get w).chan = true
+  | [], s, _, _, _ => ⟨NewClosedE.refl s, fun _ h => by cases h⟩
+  | x :: l, s, hi, hN, hl => by
+    have h1 := hg s x hi hN (hl x List.mem_cons_self)
+    have r1 := hrel s x
+    have h2 := foldl_markCE g N P hrel hflag hg l (g s x) (hi.of_markRel r1) (r1.len.trans hN)
+      (fun w hw => hl w (List.mem_cons_of_mem _ hw))
+    have f2 : FlagRel (g s x) (l.foldl g (g s x)) := foldl_flagRel g hflag l (g s x)
+    rw [List.foldl_cons]
+    refine ⟨NewClosedE.trans r1 h1.1 f2 h2.1, ?_⟩
+    intro w hw hk ha
+    rcases List.mem_cons.1 hw with rfl | hw
+    · exact f2.c w (h1.2 hk ha)
+    · exact h2.2 w hw (by rw [r1.kind]; exact hk) (by rw [(Node.core_life (r1.core w)).1]; exact ha)
+
+theorem notify_chan (s : State) (id : Nat) (ha : (s.get id).alive = true) (hlt : id < s.nodes.length) :
+    ((notify s id).get id).chan = true := by
+  rw [notify_get, if_pos ⟨ha, rfl, hlt⟩]
+
+theorem markCheck_fullE : ∀ (f : Nat) (s : State) (y : Nat), SubsInc s → s.nodes.length ≤ y + f →
+    NewClosedE s (markCheck f s y) ∧
+    ((s.get y).kind = .eff → (s.get y).alive = true → ((markCheck f s y).get y).chan = true)
+  | 0, s, y, _, hf => by
+    refine ⟨NewClosedE.refl s, fun hk _ => ?_⟩
+    have := s.lt_of_kind_ne (i := y) (by rw [hk]; simp)
+    omega
+  | f + 1, s, y, hi, hf => by
+    unfold markCheck
+    split
+    · next hk => exact ⟨NewClosedE.refl s, fun h => by rw [hk] at h; cases h⟩
+    · next hk =>
+      have hlt : y < s.nodes.length := s.lt_of_kind_ne (by rw [hk]; simp)
+      refine ⟨?_, fun _ ha => notify_chan s y ha hlt⟩
+      intro x w _ hc hnc; rw [notify_st] at hnc; exact absurd hc hnc
+    · next hk =>
+      have hlt : y < s.nodes.length := s.lt_of_kind_ne (by rw [hk]; simp)
+      generalize hs1 : (if (s.get y).st != .dirty then s.upd y fun n => { n with st := .check } else s) = s1
+      have hr1 : MarkRel s s1 := by
+        subst hs1
+        split
+        · next hd =>
+          refine MarkRel.of_upd s y _ (fun _ => rfl) ?_ (fun h => absurd hk h)
+          cases hs : (s.get y).st <;> simp_all [St.rank]
+        · exact MarkRel.refl s
+      have hoth : ∀ i, i ≠ y → (s1.get i).st = (s.get i).st := by
+        intro i hi'
+        subst hs1
+        split
+        · rw [State.get_upd_ne _ _ (Ne.symm hi')]
+        · rfl
+      have hi1 : SubsInc s1 := hi.of_markRel hr1
+      have hfold := foldl_markCE (fun s x => markCheck f s x) s.nodes.length (fun w => s.nodes.length ≤ w + f)
+        (fun s x => markCheck_rel f s x) (fun s x => markCheck_flag f s x)
+        (fun s' x hi' hN hP => markCheck_fullE f s' x hi' (by rw [hN]; exact hP))
+        (s1.get y).subs s1 hi1 hr1.len (by
+          intro w hw
+          have := hi1 y w hw
+          omega)
+      generalize (s1.get y).subs.foldl (fun s x => markCheck f s x) s1 = s2 at hfold
+      obtain ⟨hc2, hall⟩ := hfold
+      refine ⟨?_, fun h => by rw [hk] at h; cases h⟩
+      intro x w hkx hcx hncx hw hkw ha
+      by_cases hxy : x = y
+      · subst hxy
+        exact hall w (by rw [hr1.subs]; exact hw) (by rw [hr1.kind]; exact hkw)
+          (by rw [(Node.core_life (hr1.core w)).1]; exact ha)
+      · exact hc2 x w (by rw [hr1.kind]; exact hkx) (by rw [hoth x hxy]; exact hcx) hncx
+          (by rw [hr1.subs]; exact hw) (by rw [hr1.kind]; exact hkw)
+          (by rw [(Node.core_life (hr1.core w)).1]; exact ha)
+
+theorem markDirty_fullE (f : Nat) (s : State) (y : Nat) (hi : SubsInc s) (hf : s.nodes.length ≤ f) :
+    NewClosedE s (markDirty f s y) ∧
+    ((s.get y).kind = .eff → (s.get y).alive = true →
+      ((markDirty f s y).get y).dirty = true ∧ ((markDirty f s y).get y).chan = true) := by
+  refine ⟨?_, fun hk ha => ⟨(markDirty_eff_flags f s y hk ha).1, (markDirty_eff_flags f s y hk ha).2.1⟩⟩
+  unfold markDirty
+  split
+  · exact NewClosedE.refl s
+  · split
+    · exact NewClosedE.refl s
+    · have key : ∀ i, ((notify (s.upd y fun n => { n with dirty := true }) y).get i).st = (s.get i).st := by
+        intro i
+        rw [notify_st, State.get_upd]; split
+        · next hc => obtain ⟨rfl, _⟩ := hc; rfl
+        · rfl
+      intro x w _ hc hnc; rw [key] at hnc; exact absurd hc hnc
+  · next hk =>
+    have hlt : y < s.nodes.length := s.lt_of_kind_ne (by rw [hk]; simp)
+    generalize hs1 : (s.upd y fun n => { n with st := .dirty }) = s1
+    have hr1 : MarkRel s s1 := by
+      subst hs1
+      refine MarkRel.of_upd s y _ (fun _ => rfl) ?_ (fun h => absurd hk h)
+      cases hs : (s.get y).st <;> simp [St.rank]
+    have hoth : ∀ i, i ≠ y → (s1.get i).st = (s.get i).st := by
+      intro i hi'; subst hs1; rw [State.get_upd_ne _ _ (Ne.symm hi')]
+    have hi1 : SubsInc s1 := hi.of_markRel hr1
+    have hfold := foldl_markCE (fun s x => markCheck f s x) s.nodes.length (fun _ => True)
+      (fun s x => markCheck_rel f s x) (fun s x => markCheck_flag f s x)
+      (fun s' x hi' hN _ => markCheck_fullE f s' x hi' (by rw [hN]; omega))
+      (s1.get y).subs s1 hi1 hr1.len (fun _ _ => trivial)
+    generalize (s1.get y).subs.foldl (fun s x => markCheck f s x) s1 = s2 at hfold
+    obtain ⟨hc2, hall⟩ := hfold
+    intro x w hkx hcx hncx hw hkw ha
+    by_cases hxy : x = y
+    · subst hxy
+      exact hall w (by rw [hr1.subs]; exact hw) (by rw [hr1.kind]; exact hkw)
+        (by rw [(Node.core_life (hr1.core w)).1]; exact ha)
+    · exact hc2 x w (by rw [hr1.kind]; exact hkx) (by rw [hoth x hxy]; exact hcx) hncx
+        (by rw [hr1.subs]; exact hw) (by rw [hr1.kind]; exact hkw)
+        (by rw [(Node.core_life (hr1.core w)).1]; exact ha)
+
+theorem foldl_markDE (f : Nat) : ∀ (l : List Nat) (s : State), SubsInc s → s.nodes.length ≤ f →
+    NewClosedE s (l.foldl (fun s x => markDirty f s x) s) ∧
+    ∀ w ∈ l, (s.get w).kind = .eff → (s.get w).alive = true →
+      ((l.foldl (fun s x => markDirty f s x) s).get w).dirty = true
+  | [], s, _, _ => ⟨NewClosedE.refl s, fun _ h => by cases h⟩
+  | x :: l, s, hi, hf => by
+    have h1 := markDirty_fullE f s x hi hf
+    have r1 := markDirty_rel f s x
+    have h2 := foldl_markDE f l (markDirty f s x) (hi.of_markRel r1) (by rw [r1.len]; exact hf)
+    have f2 : FlagRel (markDirty f s x) (l.foldl (fun s x => markDirty f s x) (markDirty f s x)) :=
+      foldl_flagRel _ (fun s x => markDirty_flag f s x) l _
+    rw [List.foldl_cons]
+    refine ⟨NewClosedE.trans r1 h1.1 f2 h2.1, ?_⟩
+    intro w hw hk ha
+    rcases List.mem_cons.1 hw with rfl | hw
+    · exact f2.d w (h1.2 hk ha).1
+    · exact h2.2 w hw (by rw [r1.kind]; exact hk) (by rw [(Node.core_life (r1.core w)).1]; exact ha)
+
 end Leptos.Reactive
